@@ -42,25 +42,48 @@ pub struct FaultRead {
     data: Vec<u8>,
     pos: usize,
     sched: Vec<Option<usize>>,
+    // s_c20 (wave 6): explicit io::ErrorKind of a fault event (`F<k>`), None = rotating with the reader state
+    kinds: Vec<Option<usize>>,
     idx: usize,
     log: Rc<Log>,
+}
+
+/// s_c20 (wave 6): `<event>x<count>` = the event repeated count times (long schedules stay short on the wire)
+pub fn expand_sched(s: &str) -> String {
+    if !s.contains('x') {
+        return s.to_string();
+    }
+    let mut out: Vec<&str> = Vec::new();
+    for t in s.split(',') {
+        match t.split_once('x') {
+            Some((e, n)) => {
+                for _ in 0..n.parse::<usize>().unwrap() {
+                    out.push(e);
+                }
+            }
+            None => out.push(t),
+        }
+    }
+    if out.is_empty() { "-".to_string() } else { out.join(",") }
 }
 
 impl FaultRead {
     pub fn new(data: Vec<u8>, sched: &str) -> (FaultRead, Rc<Log>) {
         let log = Rc::new(Log { calls: Cell::new(0), delivered: Cell::new(0), faults: RefCell::new(Vec::new()) });
-        (FaultRead { data, pos: 0, sched: parse_sched(sched), idx: 0, log: log.clone() }, log)
+        let sched = expand_sched(sched);
+        (FaultRead { data, pos: 0, sched: parse_sched(&sched), kinds: parse_sched_kinds(&sched), idx: 0, log: log.clone() }, log)
     }
 }
 
 impl Read for FaultRead {
     fn read(&mut self, buf: &mut [u8]) -> std::io::Result<usize> {
         let ev = if self.idx < self.sched.len() { self.sched[self.idx] } else { Some(1_000_000_000) };
+        let kind = if self.idx < self.kinds.len() { self.kinds[self.idx] } else { None };
         self.idx += 1;
         self.log.calls.set(self.log.calls.get() + 1);
         match ev {
             None => {
-                let e = injected_fault(self.pos + self.idx);
+                let e = injected_fault(kind.unwrap_or(self.pos + self.idx));
                 self.log.faults.borrow_mut().push(e.kind());
                 Err(e)
             }
@@ -77,6 +100,43 @@ impl Read for FaultRead {
 
 fn p(s: &str) -> usize {
     s.parse::<usize>().unwrap()
+}
+
+/// s_c20 (wave 6): leading pseudo-ops of an op list: `R<n>` = a retryable op is tried up to n times (default 3),
+/// `RA<n>` = the same and (text) next / read are retried as well (the caller promises a document without quotes and
+/// comments, where the reader is resumable), `H` = payloads longer than 32 bytes are printed as
+/// `<first 8 bytes>~<len>~<fnv1a-32>`.  Returns (max tries, retry-all, shorten, remaining ops).
+fn op_prefixes<'a>(ops: &'a str) -> (usize, bool, bool, Vec<&'a str>) {
+    let mut tries = 3;
+    let mut all = false;
+    let mut short = false;
+    let mut rest: Vec<&str> = Vec::new();
+    if ops != "-" && !ops.is_empty() {
+        for o in ops.split(',') {
+            if rest.is_empty() && o == "H" {
+                short = true;
+            } else if rest.is_empty() && o.starts_with("RA") {
+                all = true;
+                tries = p(&o[2..]);
+            } else if rest.is_empty() && o.starts_with('R') {
+                tries = p(&o[1..]);
+            } else {
+                rest.push(o);
+            }
+        }
+    }
+    (tries, all, short, rest)
+}
+
+fn show_payload(b: &[u8], short: bool) -> String {
+    if !short || b.len() <= 32 {
+        return hex(b);
+    }
+    let mut h: u32 = 0x811c9dc5;
+    for x in b {
+        h = (h ^ (*x as u32)).wrapping_mul(0x01000193);
+    }
+    format!("{}~{}~{:08x}", hex(&b[..8]), b.len(), h)
 }
 
 /// some error of the source chain (the error itself included) is the injected one
@@ -137,13 +197,13 @@ mod text {
     use crate::fam_texttape::op_code;
     use jomini::text::{ReaderError, ReaderErrorKind, Token, TokenReader};
 
-    fn show_tok(t: &Token) -> String {
+    fn show_tok(t: &Token, short: bool) -> String {
         match t {
             Token::Open => "O".into(),
             Token::Close => "C".into(),
             Token::Operator(o) => format!("OP:{}", op_code(o)),
-            Token::Unquoted(s) => format!("U:{}", hex(s.as_bytes())),
-            Token::Quoted(s) => format!("Q:{}", hex(s.as_bytes())),
+            Token::Unquoted(s) => format!("U:{}", show_payload(s.as_bytes(), short)),
+            Token::Quoted(s) => format!("Q:{}", show_payload(s.as_bytes(), short)),
         }
     }
 
@@ -199,17 +259,18 @@ mod text {
         let (src, log) = FaultRead::new(unhex(h), sched);
         let mut rd = TokenReader::builder().buffer_len(p(cap)).build(src);
         let mut out: Vec<String> = Vec::new();
-        let oplist: Vec<&str> = if ops == "-" || ops.is_empty() { Vec::new() } else { ops.split(',').collect() };
+        let (max_tries, retry_all, short, oplist) = op_prefixes(ops);
         let mut flip = false;
         'ops: for op in oplist {
             let mut tries = 0;
             loop {
+                let pos_before = rd.position();
                 let r: Result<String, ReaderError> = match op {
-                    "n" => rd.next().map(|t| t.map_or("NONE".to_string(), |t| show_tok(&t))),
-                    "r" => rd.read().map(|t| show_tok(&t)),
+                    "n" => rd.next().map(|t| t.map_or("NONE".to_string(), |t| show_tok(&t, short))),
+                    "r" => rd.read().map(|t| show_tok(&t, short)),
                     "k" => rd.skip_container().map(|_| "OK".to_string()),
                     "u" => rd.skip_unquoted_value().map(|_| "OK".to_string()),
-                    _ if op.starts_with("by") => rd.read_bytes(p(&op[2..])).map(|b| format!("B:{}", hex(b))),
+                    _ if op.starts_with("by") => rd.read_bytes(p(&op[2..])).map(|b| format!("B:{}", show_payload(b, short))),
                     _ => return None,
                 };
                 let pos = rd.position();
@@ -227,15 +288,19 @@ mod text {
                         }
                         // alternate the two consuming accessors so that both are exercised
                         flip = !flip;
-                        let mask = if flip {
-                            text_err_api(e, &log)
-                        } else {
-                            let okpos = e.position() <= log.delivered.get();
-                            (if okpos { 0 } else { 1 }) | (if text_into_kind_class(e) == c { 0 } else { 16 })
-                        };
+                        // s_c20 (wave 6), bit 5: positions never go backwards: the error is not located before the
+                        // position the reader had reached when the op was called, nor is the reader afterwards
+                        let back = if e.position() < pos_before || pos < pos_before { 32 } else { 0 };
+                        let mask = back
+                            | if flip {
+                                text_err_api(e, &log)
+                            } else {
+                                let okpos = e.position() <= log.delivered.get();
+                                (if okpos { 0 } else { 1 }) | (if text_into_kind_class(e) == c { 0 } else { 16 })
+                            };
                         out.push(format!("ERR:{}{}/A{:x}", c, tail, mask));
                         tries += 1;
-                        if c == 100 && op.starts_with("by") && tries < 3 {
+                        if c == 100 && (op.starts_with("by") || (retry_all && (op == "n" || op == "r"))) && tries < max_tries {
                             continue;
                         }
                         break 'ops;
@@ -252,7 +317,7 @@ mod bin {
     use super::*;
     use jomini::binary::{LexError, ReaderError, ReaderErrorKind, Token, TokenReader};
 
-    fn show_tok(t: &Token) -> String {
+    fn show_tok(t: &Token, short: bool) -> String {
         match t {
             Token::Open => "O".into(),
             Token::Close => "C".into(),
@@ -261,8 +326,8 @@ mod bin {
             Token::U64(x) => format!("U64:{}", x),
             Token::I32(x) => format!("I32:{}", x),
             Token::Bool(x) => format!("BOOL:{}", if *x { 1 } else { 0 }),
-            Token::Quoted(s) => format!("Q:{}", hex(s.as_bytes())),
-            Token::Unquoted(s) => format!("U:{}", hex(s.as_bytes())),
+            Token::Quoted(s) => format!("Q:{}", show_payload(s.as_bytes(), short)),
+            Token::Unquoted(s) => format!("U:{}", show_payload(s.as_bytes(), short)),
             Token::F32(x) => format!("F32:{}", hex(&x[..])),
             Token::F64(x) => format!("F64:{}", hex(&x[..])),
             Token::Rgb(c) => match c.a {
@@ -324,16 +389,17 @@ mod bin {
         // a recycled, dirty buffer: stale contents must be unobservable
         let mut rd = TokenReader::builder().buffer(vec![0xA5u8; p(cap)].into_boxed_slice()).build(src);
         let mut out: Vec<String> = Vec::new();
-        let oplist: Vec<&str> = if ops == "-" || ops.is_empty() { Vec::new() } else { ops.split(',').collect() };
+        let (max_tries, _retry_all, short, oplist) = op_prefixes(ops);
         let mut flip = false;
         'ops: for op in oplist {
             let mut tries = 0;
             loop {
+                let pos_before = rd.position();
                 let r: Result<String, ReaderError> = match op {
-                    "n" => rd.next().map(|t| t.map_or("NONE".to_string(), |t| show_tok(&t))),
-                    "r" => rd.read().map(|t| show_tok(&t)),
+                    "n" => rd.next().map(|t| t.map_or("NONE".to_string(), |t| show_tok(&t, short))),
+                    "r" => rd.read().map(|t| show_tok(&t, short)),
                     "k" => rd.skip_container().map(|_| "OK".to_string()),
-                    _ if op.starts_with("by") => rd.read_bytes(p(&op[2..])).map(|b| format!("B:{}", hex(b))),
+                    _ if op.starts_with("by") => rd.read_bytes(p(&op[2..])).map(|b| format!("B:{}", show_payload(b, short))),
                     _ => return None,
                 };
                 let tail = format!("@{}/{}/{}", rd.position(), log.calls.get(), log.delivered.get());
@@ -345,10 +411,12 @@ mod bin {
                     Err(e) => {
                         let c = class(e.kind());
                         flip = !flip;
-                        let mask = bin_err_api(e, &log, flip);
+                        // s_c20 (wave 6), bit 5: positions never go backwards (see the text reader)
+                        let back = if e.position() < pos_before || rd.position() < pos_before { 32 } else { 0 };
+                        let mask = back | bin_err_api(e, &log, flip);
                         out.push(format!("ERR:{}{}/A{:x}", c, tail, mask));
                         tries += 1;
-                        if c == 100 && op != "k" && tries < 3 {
+                        if c == 100 && op != "k" && tries < max_tries {
                             continue;
                         }
                         break 'ops;
